@@ -611,3 +611,29 @@ for _u in _c02["UNITS"]:
         _u.template = "../C02/" + _u.template
         UNITS.append(_u)
 META["trusted_base"] = list(META.get("trusted_base", [])) + ["units c02.* are the C02 units of the same name (specs/C02/sts.c, c02.h) with their trusted base"]
+
+
+# ---- the scheduler travels with the sender (added by main after seeded change C10-6 was missed) ----
+def _brace_init(fn, dflt):
+    return Sub(r"\breturn\s*\{\s*((?:[^{};]|\([^()]*\))*?)\s*\};", lambda m: "return %s(%s);" % ((fn, m.group(1)) if m.group(1).strip() else (dflt, "")), 1)
+_ENV_COMMON = [Sub(r"std::move\(\*this\)|\*this", "*self", None), Sub(r"std::move\((\w+)\)", r"\1", None), Sub(r"std::forward<\w+>\((\w+)\)", r"\1", None)]
+UNITS += [
+    Unit("tps.sender.get_env", "tps_env.c", defines=ENUM_DEFS + ["U_GET_ENV"], enforce="get_env",
+         lifts={"body": Lift(TPS, r"env get_env\(\) const& noexcept", rules=_ENV_COMMON + [_brace_init("env_make", "env_make_default"), Members(["scheduler"], optional=["scheduler"])])},
+         funcs=[TPS + ": thread_pool_scheduler::sender::get_env"], min_obligations=2,
+         doc="F: the environment of schedule(s) carries s itself (all five members)"),
+    Unit("tps.env.get_completion_scheduler", "tps_env.c", defines=ENUM_DEFS + ["U_COMPLETION_SCHEDULER"], enforce="get_completion_scheduler",
+         lifts={"body": Lift(TPS, r"friend std::decay_t<Scheduler> tag_invoke\(\s*get_completion_scheduler_t<set_value_t>, env const& e\) noexcept",
+                             rules=[Sub(r"\be\.", "e->", None)])},
+         funcs=[TPS + ": tag_invoke(get_completion_scheduler_t<set_value_t>, sender::env const&)"], min_obligations=2,
+         doc="F: get_completion_scheduler<set_value_t> answers with the environment's scheduler"),
+    Unit("tps.schedule", "tps_env.c", defines=ENUM_DEFS + ["U_SCHEDULE"], enforce="schedule",
+         lifts={"body": Lift(TPS, r"sender<thread_pool_scheduler> schedule\(\) const&", rules=_ENV_COMMON + [_brace_init("sender_make", "sender_make_default")])},
+         funcs=[TPS + ": thread_pool_scheduler::schedule() const&"], min_obligations=2,
+         doc="F: schedule(s) makes a sender that carries s"),
+    Unit("tps.sender.connect", "tps_env.c", defines=ENUM_DEFS + ["U_CONNECT"], enforce="connect",
+         lifts={"body": Lift(TPS, r"operation_state<Scheduler, Receiver> connect\(Receiver&& receiver\) const&", rules=_ENV_COMMON + [
+             _brace_init("op_state_make", "op_state_make"), Members(["scheduler", "fallback_annotation"], optional=["scheduler", "fallback_annotation"])])},
+         funcs=[TPS + ": thread_pool_scheduler::sender::connect(Receiver&&) const&"], min_obligations=2,
+         doc="F: connect hands the sender's scheduler, the receiver and the fallback annotation to the operation state"),
+]
